@@ -8,7 +8,7 @@
    frame.pack()/to_bytes(), time.time().  They are the trusted part of this tie; everything between them -
    the loops, deadlines, state strings, retries, checks, early returns, exception handlers - is translated. *)
 From Coq Require Import String.
-From Ubx Require Import Fields Base Checksum Frame ParserUbx CfgKeys Request.
+From Ubx Require Import Fields Base Checksum Frame ParserUbx ParserNmea CfgKeys Request.
 Open Scope N_scope.
 
 Inductive pyval :=
@@ -23,7 +23,9 @@ Inductive pyval :=
 | PFrame (f : rframe)                            (* a decoded answer frame object *)
 | PReq (rq : request) (data : option bytes)      (* a request frame object; data = payload stored by pack() *)
 | PCls (c : cid) (k : string * rkind)            (* a frame class: its CID and how it decodes *)
-| PFactory.                                      (* the FrameFactory singleton *)
+| PFactory                                       (* the FrameFactory singleton *)
+| PUbxParser (p : parser)                        (* a UbxParser object held in a local (scan()) *)
+| PNmeaParser (n : nparser).                     (* a NmeaParser object held in a local (scan()) *)
 
 Definition cidZ (c : cid) : Z * Z := (Z.of_N (fst c), Z.of_N (snd c)).
 Definition cidN (c : Z * Z) : cid := (Z.to_N (fst c), Z.to_N (snd c)).
@@ -40,7 +42,7 @@ Definition truthy (v : pyval) : bool :=
   | PStr s => negb (String.eqb s "")
   | PBytes b => negb (is_nil b)
   | PList l | PTuple l => negb (is_nil l)
-  | PCid _ | PFrame _ | PReq _ _ | PCls _ _ | PFactory => true
+  | PCid _ | PFrame _ | PReq _ _ | PCls _ _ | PFactory | PUbxParser _ | PNmeaParser _ => true
   end.
 
 (* == on the kinds the code compares: None, bool, int, str, bytes, UbxCID (its __eq__ compares cls and id) *)
@@ -73,6 +75,8 @@ Definition py_attr (v : pyval) (name : string) : pyval :=
   | PFrame f => if String.eqb name "CID" then PCid (cidZ (rf_cid f)) else PNone
   | PCls c _ => if String.eqb name "CID" then PCid (cidZ c) else PNone
   | PCid c => if String.eqb name "cls" then PInt (fst c) else if String.eqb name "id" then PInt (snd c) else PNone
+  | PUbxParser p => if String.eqb name "frames_rx" then PInt (Z.of_N (rx p)) else PNone
+  | PNmeaParser n => if String.eqb name "frames_rx" then PInt (Z.of_N (nrx n)) else PNone
   | _ => PNone
   end.
 (* obj.f.<name>: a decoded field *)
@@ -88,6 +92,16 @@ Definition py_field (v : pyval) (name : string) : pyval :=
 Definition py_is_frame (v : pyval) : bool := match v with PReq _ _ | PFrame _ => true | _ => false end.
 Definition py_is_cid (v : pyval) : bool := match v with PCid _ => true | _ => false end.
 Definition py_is_list (v : pyval) : bool := match v with PList _ => true | _ => false end.
+
+(* local parser objects of scan(): UbxParser(None) has no filter; obj.process(data) updates the object *)
+Definition py_new_ubx_parser (crc_cid : pyval) : pyval := PUbxParser (fresh None).
+Definition py_new_nmea_parser : pyval := PNmeaParser nfresh.
+Definition py_obj_process (data : pyval) (obj : pyval) : res pyval :=
+  match obj, data with
+  | PUbxParser p, PBytes d => Ok (PUbxParser (process p d))
+  | PNmeaParser n, PBytes d => Ok (PNmeaParser (nprocess n d))
+  | _, _ => Raise TypeError
+  end.
 
 (* Python's exception hierarchy as far as the handlers need it: UnicodeError is a ValueError *)
 Definition exn_isinstance (e cls : exn) : bool :=
@@ -147,6 +161,10 @@ Definition s_call_return (call : L -> W -> fres) : stmt := fun l w =>
 (* x.pack(): stores the payload in the object held by the local *)
 Definition s_update (get : L -> pyval) (set : L -> pyval -> L) (f : pyval -> res pyval) : stmt := fun l w =>
   match f (get l) with Ok v => CNormal (set l v) w | Raise e => CRaise e l w end.
+
+(* obj.method(arg) on an object held in a local: the updated object replaces it *)
+Definition s_update_arg (get : L -> pyval) (set : L -> pyval -> L) (arg : L -> W -> pyval) (f : pyval -> pyval -> res pyval) : stmt := fun l w =>
+  match f (arg l w) (get l) with Ok v => CNormal (set l v) w | Raise e => CRaise e l w end.
 
 (* while <cond>: <body>.  The condition may touch the world's ghost state (deadline ties). *)
 Fixpoint s_while (fuel : nat) (cond : L -> W -> bool * W) (body : stmt) : stmt := fun l w =>
